@@ -1,4 +1,5 @@
 import QmiModel.Model.Wake
+import QmiModel.Model.WakeEnc
 /-!
 # Helper lemmas for C11 (core Lean only)
 
@@ -106,6 +107,73 @@ theorem cert_sound {sys : Sys} {good : St → Bool} (h : certB sys good = true) 
   intro s hs
   exact h.2 s (closedB_sound h.1 s hs)
 
+/-! ## certificates: chunk-wise closure (see `Model/WakeEnc.lean`) -/
+
+/-- all packed states of a certificate -/
+def Cert.codes (cert : Cert) : List Nat := cert.flatten.flatten
+
+/-- the set of states described by a certificate -/
+def InCert (cert : Cert) (s : St) : Prop := ∃ c ∈ cert.codes, dec c = s
+
+theorem natMem_sound {c : Nat} : ∀ {l : List Nat}, natMem c l = true → c ∈ l
+  | [], h => by simp [natMem] at h
+  | x :: r, h => by
+    simp only [natMem, Bool.or_eq_true, beq_iff_eq] at h
+    rcases h with h | h
+    · exact h ▸ List.mem_cons_self
+    · exact List.mem_cons_of_mem _ (natMem_sound h)
+
+theorem Cert.bucket_sub {x : Nat} : ∀ {cert : Cert} {i : Nat}, x ∈ cert.bucket i → x ∈ cert.codes
+  | [], _, h => by simp [Cert.bucket] at h
+  | g :: gs, i, h => by
+    simp only [Cert.bucket] at h
+    simp only [Cert.codes, List.flatten_cons, List.flatten_append, List.mem_append]
+    split at h
+    · rename_i hi
+      left
+      rw [List.getD_eq_getElem?_getD, List.getElem?_eq_getElem hi] at h
+      simp only [Option.getD_some] at h
+      exact List.mem_flatten.2 ⟨_, List.getElem_mem hi, h⟩
+    · right
+      exact Cert.bucket_sub (cert := gs) h
+
+theorem Cert.has_sound {cert : Cert} {nbk : Nat} {t : St} (h : cert.has nbk t = true) : InCert cert t := by
+  simp only [Cert.has, Cert.mem, Bool.and_eq_true] at h
+  exact ⟨enc t, Cert.bucket_sub (natMem_sound h.1), St.beq_eq h.2⟩
+
+theorem chunk_covers {sys : Sys} {good : St → Bool} {cert : Cert} {nbk : Nat}
+    (hch : ∀ j, j < cert.length → chunkOk sys good cert nbk j = true) :
+    ∀ c ∈ cert.codes, okCode sys good cert nbk c = true := by
+  intro c hc
+  simp only [Cert.codes, List.mem_flatten] at hc
+  obtain ⟨b, ⟨g, hg, hb⟩, hcb⟩ := hc
+  obtain ⟨j, hj, rfl⟩ := List.getElem_of_mem hg
+  have := hch j hj
+  simp only [chunkOk, List.getElem?_eq_getElem hj, List.all_eq_true] at this
+  exact this b hb c hcb
+
+/-- **chunk-wise closure**: if the initial states are in the table and every chunk of the table passes its check, then
+    every reachable state is described by the table and satisfies `good`. -/
+theorem cert_chunks_sound {sys : Sys} {good : St → Bool} {cert : Cert} {nbk : Nat}
+    (hinit : initOk sys cert nbk = true)
+    (hch : ∀ j, j < cert.length → chunkOk sys good cert nbk j = true) :
+    ∀ s, Reach sys s → good s = true := by
+  have hall := chunk_covers hch
+  have hin : ∀ s, Reach sys s → InCert cert s := by
+    refine closure_sound sys (InCert cert) ?_ ?_
+    · intro s hs
+      simp only [initOk, List.all_eq_true] at hinit
+      exact Cert.has_sound (hinit s hs)
+    · intro s ⟨c, hc, hd⟩ t ht
+      have := hall c hc
+      simp only [okCode, Bool.and_eq_true, List.all_eq_true] at this
+      exact Cert.has_sound (this.2 t (hd ▸ ht))
+  intro s hs
+  obtain ⟨c, hc, hd⟩ := hin s hs
+  have := hall c hc
+  simp only [okCode, Bool.and_eq_true] at this
+  exact hd ▸ this.1
+
 /-! ## concrete schedules as reachability witnesses -/
 
 /-- follow a schedule: each entry is (thread, index among that thread's successors) -/
@@ -174,9 +242,8 @@ theorem TaskSteps.reach {sys : Sys} {s u : St} (h : TaskSteps sys s u) (hs : Rea
   | refl => exact hs
   | step ht _ ih => exact ih (Reach.step hs (stepTh_mem_succs ht))
 
-/-- if `settles` holds, the task thread reaches a finished state satisfying `good` by its own steps alone -/
-theorem settles_reaches {sys : Sys} {good : St → Bool} : ∀ {n : Nat} {s : St}, settles sys good n s = true →
-    ∃ u, TaskSteps sys s u ∧ good u = true ∧ (∃ t, taskTh u = some t ∧ t.finished = true)
+/-- the fuel-bounded check implies the fuel-free `Settles` -/
+theorem settles_sound {sys : Sys} {good : St → Bool} : ∀ {n : Nat} {s : St}, settles sys good n s = true → Settles sys good s
   | 0, s, h => by simp [settles] at h
   | n+1, s, h => by
     unfold settles at h
@@ -186,16 +253,23 @@ theorem settles_reaches {sys : Sys} {good : St → Bool} : ∀ {n : Nat} {s : St
       simp only [ht] at h
       by_cases hf : t.finished = true
       · simp only [hf, if_true] at h
-        exact ⟨s, TaskSteps.refl, h, t, ht, hf⟩
+        exact Settles.done ht hf h
       · simp only [hf, Bool.false_eq_true, if_false, Bool.and_eq_true, Bool.not_eq_true', List.isEmpty_eq_false_iff,
           List.all_eq_true] at h
-        obtain ⟨hne, hall⟩ := h
-        obtain ⟨p, hp⟩ := List.exists_mem_of_ne_nil _ hne
-        have hp' := (hall p hp).2
-        obtain ⟨u, hu, hg, hfin⟩ := settles_reaches hp'
-        have hmem : p.2 ∈ stepTh sys s 0 := by
-          simp only [stepTh, List.mem_map]
-          exact ⟨p, (List.mem_filter.1 hp).1, rfl⟩
-        exact ⟨u, TaskSteps.step hmem hu, hg, hfin⟩
+        exact Settles.step ht (by simpa using hf) h.1 (fun p hp => (h.2 p hp).1)
+          (fun p hp => settles_sound (h.2 p hp).2)
+
+/-- if the task settles, it reaches a finished state satisfying `good` by its own steps alone -/
+theorem Settles.reaches {sys : Sys} {good : St → Bool} {s : St} (h : Settles sys good s) :
+    ∃ u, TaskSteps sys s u ∧ good u = true ∧ (∃ t, taskTh u = some t ∧ t.finished = true) := by
+  induction h with
+  | done ht hf hg => exact ⟨_, TaskSteps.refl, hg, _, ht, hf⟩
+  | @step s0 _ _ _ hne _ _ ih =>
+    obtain ⟨p, hp⟩ := List.exists_mem_of_ne_nil _ hne
+    obtain ⟨u, hu, hg, hfin⟩ := ih p hp
+    have hmem : p.2 ∈ stepTh sys s0 0 := by
+      simp only [stepTh, List.mem_map]
+      exact ⟨p, (List.mem_filter.1 hp).1, rfl⟩
+    exact ⟨u, TaskSteps.step hmem hu, hg, hfin⟩
 
 end QmiModel.Wake
